@@ -52,26 +52,26 @@ CHECKS = {
          "every state, a three-valued step oracle on every transition.", "5 C13", ""),
  "C14": (True, "fault_enumeration", "exhaustive fault-plan enumeration ({none,before,after}^calls) at every state of a bounded BFS",
          "At every history point each money-moving transaction is run under every plan in {none, fail-before, fail-after, panic}^calls and under every late validation failure after the burn; "
-         "a failure must surface as an error (raw stores, public state, used-nonce and next-nonce queries and events then equal the pre-state), a success must have had nil results from all dependency calls and an emitted message / marked nonce.", "5 C14", ""),
+         "a failure must surface as an error (raw stores, public state, used-nonce and next-nonce queries and events then equal the pre-state), a success must have had nil results from all dependency calls, the debit and the burn committed on the ledger, and an emitted message / marked nonce.", "5 C14", ""),
  "C15": (True, "model_checking", "exhaustive menu over every transaction type/branch from several states with a recording store service; path census over error-return sites",
-         "From six states, and from every state one (quick) / two (thorough) successful transactions away, every transaction type runs in its success path and every failure branch (79 of 85 error-return sites driven, 6 documented unreachable), and every query/export is called: "
-         "raw store writes stay in the documented key classes, the typed diff is exactly the named entry, no invisible keys, failed transactions/queries/export write nothing.", "5 C15",
+         "From six states, and from every state one (quick) / up to three (thorough) successful transactions away, every transaction type runs in its success path and every failure branch (79 of 85 error-return sites driven, 6 documented unreachable), and every query/export is called: "
+         "raw store writes stay in the documented key classes, the typed diff is exactly the named entry (judged both against the reference model and, independently of it, by which registry keys differ), no invisible keys, failed transactions/queries/export write nothing.", "5 C15",
          "The static all-paths half of the quantifier is decided only for the driven paths (census in the evidence)."),
  "C16": (True, "model_checking", "exhaustive enumeration of byte strings and field values against an independent reference codec",
          "Every length 0..N x structured patterns incl. a walking byte at every position, and the product of boundary field values x field sizes, are decoded/encoded by the "
          "implementation and by an independent codec written from the stated layout; results must agree and round-trip.", "5 C16", ""),
  "C17": (True, "model_checking", "exhaustive product over genesis list contents + explicit-state BFS with export/import differential",
-         "Every sequence (length <=3) over colliding entries in each keyed list (pairs of lists in thorough) x optional fields x roles: duplicates must be rejected, accepted states must round-trip as multisets; "
+         "Every sequence (length <=3) over colliding entries in each keyed list (pairs of lists in thorough) x optional fields x roles: duplicates must be rejected, accepted states must round-trip as multisets; lists of 99..257 entries (beyond any default page) must round-trip; "
          "in every state of a BFS over all 25 transaction types, init(export(s)) into an empty chain must reproduce the raw module store key for key. One known finding (pending owner has no genesis field).", "5 C17", ""),
  "C18": (True, "exploration", "exhaustive enumeration of transaction-granular interleavings of several instances vs solo reference runs + separate free-running -race pass",
-         "All interleavings (630 quick / 16800 thorough, x separate and shared keeper) of three colliding histories and a query-only instance vs solo runs; repeated and after-unrelated-history replays compared with references computed in fresh processes; "
+         "All interleavings (630 quick / 16800 thorough, x separate and shared keeper) of three colliding histories and a query-only instance vs solo runs; all interleavings of three instances writing short keys of the same collections; repeated and after-unrelated-history replays compared with references computed in fresh processes; requests rejected for several reasons at once repeated thousands of times under a free-running scheduler; "
          "discarded-transaction non-interference: for every ordered pair (s, q) of a ~135-request menu in 6 states, q after executing s on a branch that is then discarded must equal q alone and queries must be unchanged; "
-         "the same bodies run free on 16 goroutines under the race detector (one shared cctp keeper, per-instance dependencies).", "5 C18",
+         "the same bodies run free on 24 goroutines under the race detector (one shared cctp keeper, per-instance dependencies).", "5 C18",
          "Map-iteration/time/rand nondeterminism is covered only by repeated runs (randomised differential) and an informational AST scan; races wholly inside dependencies are counted, not reported."),
  "C19": (True, "model_checking", "per-registry BFS to closure + combined BFS, every query compared with reference maps after every transition",
-         "All contents of each registry over small colliding key universes are reached by real transactions; after every transition every single-item query for every key, every list query for every page size in key and offset mode with totals, and all scalar queries are compared with reference maps; a scalar or role a successful transaction has just set must be what its query returns.", "5 C19", ""),
+         "All contents of each registry over small colliding key universes are reached by real transactions; after every transition every single-item query for every key, every list query for every page size in key and offset mode with totals, and all scalar queries are compared with reference maps; a scalar or role a successful transaction has just set must be what its query returns; registries of 101 and 130 entries (beyond the default page) are paged with every page size.", "5 C19", ""),
  "C20": (True, "model_checking", "exhaustive product of per-field nasty domains per message type, decoded from wire bytes, under recover()",
-         "Every combination of field shapes (absent, empty, malformed, oversized, non-ASCII, boundary integers) for all 25 transaction types in six reachable states, all 19 queries with nil/extreme requests, "
+         "Every combination of field shapes (absent, empty, malformed, oversized, non-ASCII, boundary integers) for all 25 transaction types in nine states (three of them only a genesis file can create), all 19 queries with nil/extreme requests, "
          "the decoders and verifier over all lengths 0..300, and the CLI address parser over all short strings: none may panic.", "5 C20",
          "Uses the verif hook exporting the CLI parser."),
 }
